@@ -530,6 +530,13 @@ static bool mutate(const std::string& cls, Any* a, int P) {
         else { typedef GFqDom<int32_t> G; static_cast<Box<G, pr_gfq<G> >*>(a)->d.read(ss); }
         return true;
     }
+    if (cls == "Poly1Dom<Modular<double>,Dense>" || cls == "Poly1FactorDom<Modular<double>,Dense>") {          // setdomain + setIndeter: the polynomial domain over another ring
+        static const long SM[] = {7, 101, 46337, 3};
+        Modular<double> nf((double)SM[P]); Indeter nx(P & 1 ? "Y" : "X");
+        if (cls[5] == 'D') { typedef Poly1Dom<Modular<double>, Dense> PD; PD& d = static_cast<Box<PD, pr_poly<PD> >*>(a)->d; if (P & 2) d.setdomain(nf); else d.setDomain(nf); d.setIndeter(nx); }
+        else { typedef Poly1FactorDom<Modular<double>, Dense> PD; PD& d = static_cast<Box<PD, pr_fact<PD> >*>(a)->d; if (P & 2) d.setdomain(nf); else d.setDomain(nf); d.setIndeter(nx); }
+        return true;
+    }
     if (cls == "ModularExtended<double>") return mutate_read_plain<RINGBOX(ModularExtended<double>) >(a, cls, P);
     if (cls == "ModularExtended<float>") return mutate_read_plain<RINGBOX(ModularExtended<float>) >(a, cls, P);
     MUT_READ("Modular<int8_t>", Modular<int8_t>) MUT_READ("Modular<uint8_t>", Modular<uint8_t>) MUT_READ("Modular<int16_t>", Modular<int16_t>) MUT_READ("Modular<uint16_t>", Modular<uint16_t>)
